@@ -143,10 +143,28 @@ func checkC15(p *Prog, r *Report) {
 		}
 	}
 	r.floor("Check scenarios", nScen, 36)
+	if deep {
+		// thorough tier: sequences of three relationships
+		n3 := 0
+		for _, k1 := range relKinds {
+			for _, k2 := range relKinds {
+				for _, k3 := range relKinds {
+					n3++
+					bad := evalCheck(p, chk, gt, []relKind{k1, k2, k3})
+					r.decide(bad == "", "C15.fault-table", "Check:["+k1.name+", "+k2.name+", "+k3.name+"]", p.pos(chk.Pos()),
+						"every complete path reports each offending relationship it visited and nothing otherwise", "Check mis-reports this sequence of relationships: "+bad)
+				}
+			}
+		}
+		r.count("Check scenarios of length 3", n3)
+	}
 }
 
 func evalCheck(p *Prog, chk, gt *ssa.Function, script []relKind) string {
-	in := &interp{p: p, f: chk, maxPaths: 20000, maxVisit: 3}
+	in := &interp{p: p, f: chk, maxPaths: 20000, maxVisit: len(script) + 1}
+	if deep {
+		in.maxPaths = 200000
+	}
 	relIdx := func(s string) int {
 		m := relIdxRe.FindStringSubmatch(s)
 		if m == nil {
